@@ -300,7 +300,11 @@ def r01_5(ctx, A):
                 elif loc[-1:] == ('out',):
                     src = layout.iter_source(f, p.blocks[-1]) if p.end == 'cut' else None
                     got['trans'] = pre_first and v[2][1][0] == 'field' and v[2][1][2] == 'out' and src is not None and any(x[0] == 'field' and x[2] == 'trans' for x in walk(src[2]))
-        ctx.check(R, all(got.values()), 'add-output-prefix', 'a pushed-down output must be added to the final output (iff final), to EVERY finished transition and to the pending transition of the node (%s)' % got, fn=f)
+        adaptors = any((g.callee(t) or '').rsplit('::', 1)[-1] in ('for_each', 'chain', 'fold', 'try_for_each', 'map') for g in [f] + [c for c in lib.fn_list if c.kind == 'Closure' and c.path.startswith(f.path + '::')] for _, t in g.calls())
+        if not all(got.values()) and adaptors:
+            ctx.undecided(R, 'add-output-prefix', 'the pushed-down output is distributed through iterator adaptors the rule does not follow (%s)' % got, fn=f)
+        else:
+            ctx.check(R, all(got.values()), 'add-output-prefix', 'a pushed-down output must be added to the final output (iff final), to EVERY finished transition and to the pending transition of the node (%s)' % got, fn=f)
     f = lib.fn('raw::build::UnfinishedNodes::add_suffix')
     if f is None:
         ctx.missing(R, 'anchor:add_suffix', 'add_suffix not found')
